@@ -993,6 +993,13 @@ type swamp struct {
 	// capMu, so existing throughput is unaffected.
 	capMu sync.Mutex
 
+	// claimMu serialises the claim operations of this swamp (shift-expired,
+	// shift-matching, patch-expired). Each of them selects under the mutex of
+	// one beacon only and removes or patches the selected records afterwards,
+	// so two claims working on different beacons (ASC vs DESC, key vs
+	// expiration) could otherwise select the same record.
+	claimMu sync.Mutex
+
 	// beaconBuildMu serialises the lazy build of the ordered beacons, so a
 	// caller never walks a beacon that another caller is still filling and
 	// two callers never fill the same beacon twice.
@@ -2635,6 +2642,9 @@ func (s *swamp) DeleteTreasure(key string, shadowDelete bool) error {
 // Use this function carefully as it deletes the Treasures from the Swamp.
 func (s *swamp) CloneAndDeleteExpiredTreasures(howMany int32) ([]treasure.Treasure, error) {
 
+	s.claimMu.Lock()
+	defer s.claimMu.Unlock()
+
 	// set the last interaction time to the current time
 	atomic.StoreInt64(&s.lastInteractionTime, time.Now().UnixNano())
 
@@ -2687,6 +2697,9 @@ func (s *swamp) CloneAndDeleteMatchingTreasures(beaconType BeaconType, order Bea
 	// cap-filter (e.g. a sibling claim-in-place flow on the same swamp),
 	// concurrent callers must still serialise to avoid double-counting
 	// budgets.
+	s.claimMu.Lock()
+	defer s.claimMu.Unlock()
+
 	if capPredicate != nil {
 		s.capMu.Lock()
 		defer s.capMu.Unlock()
